@@ -593,6 +593,20 @@ func streamGenerator(r *hx.Rng, cfs []*cfile, bs *builtSet, bindir, genRoot stri
 					same = false
 				}
 			}
+			// wherever the output has an order that the schema does not fix (several imports), Go's randomised map
+			// iteration shows up only every few runs: repeat
+			for rep := 0; same && len(f.Imports) >= 2 && rep < 24; rep++ {
+				o3, e3, err3 := runPlugin(fm, req, d1, nil)
+				if err3 != nil || e3 != e1 || len(o3) != len(o1) {
+					same = false
+					break
+				}
+				for i := range o1 {
+					if o1[i].Name != o3[i].Name || o1[i].Content != o3[i].Content {
+						same = false
+					}
+				}
+			}
 			if !same {
 				fail("two runs on the identical request produced different output", cs, "byte-identical", "differs", "gen-nondeterministic")
 			}
